@@ -37,7 +37,7 @@ def union_tree(f, f2):
 
 
 def cases(rng, tier):
-    n = {"quick": 170, "thorough": 3000, "search": 850}[tier]
+    n = {"quick": 400, "thorough": 3000, "search": 850}[tier]
     out = []
     for _ in range(n):
         while True:
